@@ -94,7 +94,7 @@ def p2dModel (ext : Bool) (g np rt seed ncpu : Nat) : Option (Nat × Nat × List
     if ext then ((C33.ctorExt ncpu).1, true, np)
     else ((C33.ctorOwn g np).1, (C33.ctorOwn g np).2, min np (g / 2))
   let R := rtOf rt
-  if !hasExec then some (1, 1, C33.p2dAllPairs g plan false R)
+  if C33.runsSequential plan hasExec then some (1, 1, C33.p2dAllPairs g plan hasExec R)
   else
     let rounds := C33.p2dRounds g plan R
     match peModel threads seed (rounds.map List.length) with
